@@ -1,6 +1,6 @@
 """Plumbing probe for C03/A2: real reader stack over in-memory sources, brute force over a tiny space (no solver yet)."""
 import sys, itertools, math, logging
-sys.path.insert(0, "/repo"); logging.disable(logging.CRITICAL)
+sys.path.insert(0, __import__("os").environ.get("VERIF_REPO", "/repo")); logging.disable(logging.CRITICAL)
 from esrally import track
 from esrally.track import params
 from esrally.utils import io
